@@ -36,6 +36,15 @@ func (fr *Frame) execCall(x *ssa.Call) {
 	}
 }
 
+func (e *Exec) onStack(fn *ssa.Function) bool {
+	for _, s := range e.stack {
+		if s == fn {
+			return true
+		}
+	}
+	return false
+}
+
 func (e *Exec) canInline(fn *ssa.Function, depth int) bool {
 	if fn == nil || len(fn.Blocks) == 0 {
 		return false
@@ -127,6 +136,26 @@ func (fr *Frame) callResolved(in ssa.Instruction, callee *ssa.Function, binds []
 	}
 	if v, ok := fr.model(in, callee, args, resT); ok {
 		return v
+	}
+	if callee == e.top || e.onStack(callee) {
+		// recursion: needs a measure that decreases at this call and is bounded below; without a
+		// `decreases` clause termination (and a bounded stack) is not established
+		goal := "false"
+		desc := "recursive call of " + key + " without a decreases clause: unbounded recursion is not excluded"
+		if callee == e.top && e.spec != nil && e.spec.Decreases != nil && e.variant0 != "" {
+			cenv := e.calleeEnv(callee, e.spec, args, binds, fr.st, nil)
+			if v, err := cenv.eval(e.spec.Decreases.E); err == nil {
+				zero := bvLitI(64, 0)
+				goal = mkAnd(app("bvsle", zero, e.variant0), app("bvslt", e.toBV64(v), e.variant0))
+				desc = "recursive call: measure " + e.spec.Decreases.Src + " decreases and is bounded below"
+			} else {
+				e.errs = append(e.errs, fmt.Sprintf("%s: %v", e.spec.Decreases.Line, err))
+			}
+		}
+		e.oblige("variant", fr.prefix+"recursion:"+e.L.shortName(callee), fr.pc, goal, e.posOf(in.Pos()), desc)
+		if callee != e.top || sp == nil {
+			return fr.havocCall(in, key, resT, callee)
+		}
 	}
 	if sp != nil && !sp.Inline {
 		return fr.applyContract(in, callee, sp, args, binds, resT, key)
